@@ -11,10 +11,11 @@ Statements about `Model/NodePool.lean` + `Model/RoundBlocks.lean`, tied to `chai
 The permutation `rand.New(rand.NewSource(seed)).Perm(n)` is an argument (`perm`); the harness passes (and checks) what
 Go's seeded generator produces. Determinism of that generator w.r.t. the seed is Go's.
 
-FULL STATEMENT of the last clause (false of the code, `update_replaces_fails`): after `UpdateNotarizedBlock(b)` the
-notarized entry with `b.Hash` is `b`. The loop at entity.go:354-358 stores the entry it has just read
-(`r.notarizedBlocks[i] = nb`), so nothing is replaced. PROVED instead (`_partial`): the proposed list is updated
-(`update_replaces_proposed_partial`), the notarized list is left exactly as it was (`update_notarized_unchanged`).
+The last clause — after `UpdateNotarizedBlock(b)` the notarized entry with `b.Hash` IS `b` — is `update_replaces`; it was
+false of the code before repo commit 1ab8ea2 (the loop stored the entry it had just read; finding
+C35:update-does-not-replace, now fixed): `update_replaces_repaired` is the former failing history. With the replacement
+in place, "one block per rank, heaviest first" survives an update because a block's hash determines its rank
+(`HashRank`, an assumption on the block objects: `update_illformed_breaks_order` shows it is needed).
 -/
 namespace ZChain.RoundBlocks
 open ZChain.NodePool
@@ -202,14 +203,57 @@ theorem addNotarized_inv (s : St) (o : Nat) (hd : InDomain s) (h : NInv s) : NIn
       have := (hd a).1; have := (hd b).1
       omega
 
-/-- `UpdateNotarizedBlock` leaves the notarized list exactly as it was (as coded: `r.notarizedBlocks[i] = nb`). -/
-theorem update_notarized_unchanged (s : St) (o : Nat) :
-    (updateNotarized s o).notarized = s.notarized ∧ (updateNotarized s o).heap = s.heap := by
-  unfold updateNotarized
-  simp
+/-- a block's hash determines its rank (two objects with the same hash are copies of the same block). -/
+def HashRank (s : St) : Prop := ∀ a b, (obj s a).hash = (obj s b).hash → (obj s a).rank = (obj s b).rank
 
-/-- **update_replaces_proposed_partial**: in the PROPOSED list every entry with the block's hash is the given block. -/
-theorem update_replaces_proposed_partial (s : St) (o : Nat) :
+theorem update_heap (s : St) (o : Nat) : (updateNotarized s o).heap = s.heap := rfl
+
+/-- **update_replaces** (full strength): after `UpdateNotarizedBlock b`, every notarized entry with `b`'s hash IS `b`
+(the object handed in), every other entry is untouched, and the list keeps its length and positions. -/
+theorem update_replaces (s : St) (o : Nat) :
+    (∀ p ∈ (updateNotarized s o).notarized, (obj s p).hash = (obj s o).hash → p = o) ∧
+    (updateNotarized s o).notarized = s.notarized.map (fun p => if (obj s p).hash = (obj s o).hash then o else p) ∧
+    (∀ p ∈ s.notarized, (obj s p).hash ≠ (obj s o).hash → p ∈ (updateNotarized s o).notarized) ∧
+    ((∃ p ∈ s.notarized, (obj s p).hash = (obj s o).hash) → o ∈ (updateNotarized s o).notarized) := by
+  refine ⟨?_, rfl, ?_, ?_⟩
+  · intro p hp hh
+    unfold updateNotarized at hp
+    simp only [List.mem_map] at hp
+    obtain ⟨q, _, hq⟩ := hp
+    by_cases hc : (obj s q).hash = (obj s o).hash
+    · simp only [hc, if_true] at hq; exact hq.symm
+    · simp only [hc, if_false] at hq; subst hq; exact absurd hh hc
+  · intro p hp hne
+    unfold updateNotarized
+    simp only [List.mem_map]
+    exact ⟨p, hp, by simp [hne]⟩
+  · rintro ⟨p, hp, he⟩
+    unfold updateNotarized
+    simp only [List.mem_map]
+    exact ⟨p, hp, by simp [he]⟩
+
+/-- the invariants survive an update when a hash determines the rank. -/
+theorem update_inv (s : St) (o : Nat) (hw : HashRank s) (h : NInv s) : NInv (updateNotarized s o) := by
+  have ho : ∀ x, obj (updateNotarized s o) x = obj s x := obj_heap (update_heap s o)
+  have hf : ∀ p, hr s (if (obj s p).hash = (obj s o).hash then o else p) = hr s p := by
+    intro p
+    by_cases hc : (obj s p).hash = (obj s o).hash
+    · simp only [hc, if_true, hr]
+      rw [hw o p hc.symm]
+    · simp only [hc, if_false]
+  have hfr : ∀ p, (obj s (if (obj s p).hash = (obj s o).hash then o else p)).rank = (obj s p).rank :=
+    fun p => congrArg Prod.snd (hf p)
+  have hfh : ∀ p, (obj s (if (obj s p).hash = (obj s o).hash then o else p)).hash = (obj s p).hash :=
+    fun p => congrArg Prod.fst (hf p)
+  unfold NInv
+  simp only [ho]
+  show List.Pairwise _ (s.notarized.map _) ∧ List.Pairwise _ (s.notarized.map _)
+  rw [List.pairwise_map, List.pairwise_map]
+  exact ⟨h.1.imp (fun {a b} hab => by rw [hfr, hfr]; exact hab),
+         h.2.imp (fun {a b} hab => by rw [hfh, hfh]; exact hab)⟩
+
+/-- **update_replaces_proposed**: also in the PROPOSED list every entry with the block's hash is the given block. -/
+theorem update_replaces_proposed (s : St) (o : Nat) :
     ∀ p ∈ (updateNotarized s o).proposed, (obj s p).hash = (obj s o).hash → p = o := by
   intro p hp hh
   unfold updateNotarized at hp
@@ -237,41 +281,48 @@ theorem step_hr (s : St) (op : Op) (o' : Nat) : hr (step s op) o' = hr s o' := b
   | addn o => exact addNotarized_hr s o o'
   | upd o =>
     show hr (updateNotarized s o) o' = hr s o'
-    unfold hr; rw [obj_heap (update_notarized_unchanged s o).2]
+    unfold hr; rw [obj_heap (update_heap s o)]
   | addp o =>
     show hr (addProposed s o) o' = hr s o'
     unfold hr; rw [obj_heap (addProposed_frame s o).1]
 
-theorem step_inv (s : St) (op : Op) (hd : InDomain s) (h : NInv s) : NInv (step s op) ∧ InDomain (step s op) := by
+theorem step_inv (s : St) (op : Op) (hd : InDomain s) (hw : HashRank s) (h : NInv s) :
+    NInv (step s op) ∧ InDomain (step s op) ∧ HashRank (step s op) := by
+  have hw' : HashRank (step s op) := by
+    intro a b hab
+    have e1 := step_hr s op a
+    have e2 := step_hr s op b
+    simp only [hr, Prod.mk.injEq] at e1 e2
+    rw [e1.2, e2.2]; apply hw; rw [← e1.1, ← e2.1]; exact hab
   have hd' : InDomain (step s op) := by
     intro o
     have := congrArg Prod.snd (step_hr s op o)
     simp only [hr] at this
     rw [this]; exact hd o
-  refine ⟨?_, hd'⟩
+  refine ⟨?_, hd', hw'⟩
   cases op with
   | addn o => exact addNotarized_inv s o hd h
   | upd o =>
-    exact ninv_congr s _ (update_notarized_unchanged s o).1 (step_hr s (.upd o)) h
+    exact update_inv s o hw h
   | addp o =>
     exact ninv_congr s _ (addProposed_frame s o).2.1 (step_hr s (.addp o)) h
 
 /-- **one_block_per_rank + sorted_by_weight** for every history: over any set of block objects with ranks in the
-domain, any sequence of `AddNotarizedBlock` / `UpdateNotarizedBlock` / `AddProposedBlock` from a fresh round leaves the
+domain and ranks determined by the hash, any sequence of `AddNotarizedBlock` / `UpdateNotarizedBlock` / `AddProposedBlock` from a fresh round leaves the
 notarized list with strictly ascending ranks (at most one block per rank, heaviest first) and pairwise different
 hashes. -/
 theorem reachable_ninv (heap : List (Nat × Blk)) (ops : List Op)
-    (hd : InDomain { empty with heap := heap }) :
+    (hd : InDomain { empty with heap := heap }) (hw : HashRank { empty with heap := heap }) :
     NInv (run { empty with heap := heap } ops) := by
-  have : ∀ (ops : List Op) (s : St), InDomain s → NInv s → NInv (run s ops) := by
+  have : ∀ (ops : List Op) (s : St), InDomain s → HashRank s → NInv s → NInv (run s ops) := by
     intro ops
     induction ops with
-    | nil => intro s _ h; exact h
+    | nil => intro s _ _ h; exact h
     | cons op ops ih =>
-      intro s hd h
-      obtain ⟨h1, h2⟩ := step_inv s op hd h
-      exact ih _ h2 h1
-  exact this ops _ hd ⟨List.Pairwise.nil, List.Pairwise.nil⟩
+      intro s hd hw h
+      obtain ⟨h1, h2, h3⟩ := step_inv s op hd hw h
+      exact ih _ h2 h3 h1
+  exact this ops _ hd hw ⟨List.Pairwise.nil, List.Pairwise.nil⟩
 
 /-- the heaviest notarized block is the one of the lowest rank. -/
 theorem heaviest_lowest_rank (s : St) (h : NInv s) (o : Nat) (ho : heaviest s = some o) :
@@ -290,15 +341,23 @@ theorem heaviest_lowest_rank (s : St) (h : NInv s) (o : Nat) (ho : heaviest s = 
     · exact Int.le_refl _
     · exact Int.le_of_lt ((List.pairwise_cons.mp h1).1 p hp)
 
-/-! ## negation witness (finding `C35:update-does-not-replace`) -/
+/-! ## the repaired history (finding `C35:update-does-not-replace`, fixed in 1ab8ea2), information-only witnesses -/
 
-/-- **update_replaces is false of the code.** Block object 1 (hash 0, rank 0) is notarized; `UpdateNotarizedBlock` is
-called with object 2 — another object with the same hash (here carrying one more ticket). The notarized list still
-holds object 1; only the proposed list holds object 2. -/
-theorem update_replaces_fails :
+/-- the history on which the code failed before commit 1ab8ea2: block object 1 (hash 0, rank 0) is notarized,
+`UpdateNotarizedBlock` is called with object 2 — another object with the same hash, carrying one more ticket. Now the
+notarized list (and the proposed list) hold object 2. -/
+theorem update_replaces_repaired :
     let s0 : St := { empty with heap := [(1, ⟨0, 0, [1]⟩), (2, ⟨0, 0, [1, 2]⟩)] }
     let s := run s0 [.addn 1, .upd 2]
-    s.notarized = [1] ∧ s.proposed = [2] ∧ (obj s 1).hash = (obj s 2).hash ∧ (obj s 1).tickets ≠ (obj s 2).tickets := by
+    s.notarized = [2] ∧ s.proposed = [2] ∧ (obj s 1).tickets ≠ (obj s 2).tickets := by
+  decide
+
+/-- information: `HashRank` is needed. An update with an object that carries a notarized block's hash but ANOTHER rank
+(ill-formed: a hash fixes the block) puts the list out of order — ranks `[5, 1]`. -/
+theorem update_illformed_breaks_order :
+    let s0 : St := { empty with heap := [(1, ⟨0, 0, []⟩), (2, ⟨1, 1, []⟩), (3, ⟨0, 5, []⟩)] }
+    let s := run s0 [.addn 1, .addn 2, .upd 3]
+    s.notarized = [3, 2] ∧ (s.notarized.map (fun o => (obj s o).rank)) = [5, 1] := by
   decide
 
 /-- information: `GetGenerators` (used for statistics and wait times) takes the first `g` of `GetMinersByRank`, which
@@ -329,6 +388,33 @@ theorem inDomain_of_heap (s : St) (h : ∀ p ∈ s.heap, 0 ≤ p.2.rank ∧ p.2.
   | none => exact ⟨by decide, by decide⟩
   | some b => exact h (o, b) (heapGet_mem _ _ _ hg)
 
+/-- a heap in which equal hashes carry equal ranks (and hash 0, the hash of an absent object, carries rank 0). -/
+theorem hashRank_of_heap (s : St)
+    (h1 : ∀ p ∈ s.heap, ∀ q ∈ s.heap, p.2.hash = q.2.hash → p.2.rank = q.2.rank)
+    (h0 : ∀ p ∈ s.heap, p.2.hash = 0 → p.2.rank = 0) : HashRank s := by
+  intro a b hab
+  unfold obj at *
+  cases ha : heapGet s.heap a with
+  | none =>
+    cases hb : heapGet s.heap b with
+    | none => rfl
+    | some y =>
+      rw [ha, hb] at hab
+      have := h0 (b, y) (heapGet_mem _ _ _ hb) hab.symm
+      simp only [Option.getD]; exact this.symm
+  | some x =>
+    cases hb : heapGet s.heap b with
+    | none =>
+      rw [ha, hb] at hab
+      exact h0 (a, x) (heapGet_mem _ _ _ ha) hab
+    | some y =>
+      rw [ha, hb] at hab
+      exact h1 (a, x) (heapGet_mem _ _ _ ha) (b, y) (heapGet_mem _ _ _ hb) hab
+
+example : HashRank { empty with heap := [(1, ⟨4, 1, []⟩), (2, ⟨5, 1, []⟩), (3, ⟨0, 0, [7]⟩), (4, ⟨4, 1, [2]⟩)] } :=
+  hashRank_of_heap _ (by decide) (by decide)
+example : (run { empty with heap := [(1, ⟨4, 1, []⟩), (2, ⟨5, 1, []⟩), (3, ⟨0, 0, [7]⟩), (4, ⟨4, 1, [2]⟩)] }
+    [.addn 1, .addn 3, .upd 4]).notarized = [3, 4] := by decide
 example : InDomain { empty with heap := [(1, ⟨4, 1, []⟩), (2, ⟨5, 1, []⟩), (3, ⟨0, 0, [7]⟩)] } :=
   inDomain_of_heap _ (by decide)
 example : (run { empty with heap := [(1, ⟨4, 1, []⟩), (2, ⟨5, 1, []⟩), (3, ⟨0, 0, [7]⟩)] }
